@@ -3,7 +3,7 @@
 Copy a confirmed seeded change from the agent's output directory to /verif/seeded/<name>/ with meta.json."""
 import json, os, shutil, sys
 pid, k, name, needs, suite, demo, caught = sys.argv[1:8]
-out = "/tmp/seed_%s_out" % pid
+out = "/tmp/%s_%s_out" % (os.environ.get("SEEDPFX", "seed"), pid)
 d = "/verif/seeded/%s" % name
 os.makedirs(d, exist_ok=True)
 shutil.copy("%s/variant%s.diff" % (out, k), d + "/patch.diff")
